@@ -1,0 +1,175 @@
+//! Verification hooks (cargo feature `verif`).
+//!
+//! Nothing in this module changes behaviour unless a harness explicitly installs a clock,
+//! a uid seed or a fault plan. With the feature off this module is not compiled at all.
+
+use std::sync::atomic::{AtomicI64, AtomicU64, Ordering};
+use std::sync::Mutex;
+
+/// re-exports of the otherwise private modules, so that an external harness can drive the real code
+pub mod configuration {
+    pub use crate::configuration::*;
+}
+pub mod database {
+    pub use crate::database::*;
+}
+pub mod date_utils {
+    pub use crate::date_utils::*;
+}
+pub mod discret {
+    pub use crate::discret::*;
+}
+pub mod event_service {
+    pub use crate::event_service::*;
+}
+pub mod network {
+    pub use crate::network::*;
+}
+pub mod peer_connection_service {
+    pub use crate::peer_connection_service::*;
+}
+pub mod security {
+    pub use crate::security::*;
+}
+pub mod signature_verification_service {
+    pub use crate::signature_verification_service::*;
+}
+pub mod synchronisation {
+    pub use crate::synchronisation::*;
+}
+
+/// virtual clock: i64::MIN means "not installed, use the wall clock"
+static CLOCK: AtomicI64 = AtomicI64::new(i64::MIN);
+
+pub fn set_clock(millis: i64) {
+    CLOCK.store(millis, Ordering::SeqCst);
+}
+pub fn clear_clock() {
+    CLOCK.store(i64::MIN, Ordering::SeqCst);
+}
+pub fn clock() -> Option<i64> {
+    let v = CLOCK.load(Ordering::SeqCst);
+    if v == i64::MIN {
+        None
+    } else {
+        Some(v)
+    }
+}
+
+/// deterministic uid stream: 0 means "not installed, use the OS random generator"
+static UID_SEED: AtomicU64 = AtomicU64::new(0);
+static UID_COUNTER: AtomicU64 = AtomicU64::new(0);
+
+pub fn set_uid_seed(seed: u64) {
+    UID_SEED.store(seed, Ordering::SeqCst);
+    UID_COUNTER.store(0, Ordering::SeqCst);
+}
+pub fn clear_uid_seed() {
+    UID_SEED.store(0, Ordering::SeqCst);
+}
+/// fills `out` with the next deterministic bytes, returns false when no seed is installed
+pub fn uid_fill(out: &mut [u8]) -> bool {
+    let seed = UID_SEED.load(Ordering::SeqCst);
+    if seed == 0 {
+        return false;
+    }
+    let n = UID_COUNTER.fetch_add(1, Ordering::SeqCst);
+    let mut hasher = blake3::Hasher::new();
+    hasher.update(&seed.to_le_bytes());
+    hasher.update(&n.to_le_bytes());
+    let h = hasher.finalize();
+    let len = out.len();
+    out.copy_from_slice(&h.as_bytes()[0..len]);
+    true
+}
+
+/// fault injection on the write path
+#[derive(Clone, Debug, PartialEq, Eq)]
+pub enum FaultAction {
+    /// abort the process
+    Abort,
+    /// make the instrumented point return a statement error
+    Error,
+}
+#[derive(Clone, Debug)]
+pub struct FaultPlan {
+    pub point: String,
+    pub hit: u64,
+    pub action: FaultAction,
+}
+struct FaultState {
+    plan: Option<FaultPlan>,
+    counts: Vec<(String, u64)>,
+    fired: bool,
+}
+static FAULT: Mutex<FaultState> = Mutex::new(FaultState {
+    plan: None,
+    counts: Vec::new(),
+    fired: false,
+});
+
+pub fn set_fault_plan(plan: Option<FaultPlan>) {
+    let mut f = FAULT.lock().unwrap();
+    f.plan = plan;
+    f.counts.clear();
+    f.fired = false;
+}
+pub fn fault_counts() -> Vec<(String, u64)> {
+    FAULT.lock().unwrap().counts.clone()
+}
+pub fn fault_fired() -> bool {
+    FAULT.lock().unwrap().fired
+}
+/// an instrumented point of the write path
+pub fn fault(point: &str) -> std::result::Result<(), rusqlite::Error> {
+    let mut f = FAULT.lock().unwrap();
+    let n = match f.counts.iter_mut().find(|e| e.0 == point) {
+        Some(e) => {
+            e.1 += 1;
+            e.1
+        }
+        None => {
+            f.counts.push((point.to_string(), 1));
+            1
+        }
+    };
+    if let Some(plan) = &f.plan {
+        if !f.fired && plan.point == point && plan.hit == n {
+            let action = plan.action.clone();
+            f.fired = true;
+            drop(f);
+            match action {
+                FaultAction::Abort => {
+                    use std::io::Write;
+                    let _ = std::io::stdout().flush();
+                    std::process::abort();
+                }
+                FaultAction::Error => {
+                    return Err(rusqlite::Error::SqliteFailure(
+                        rusqlite::ffi::Error::new(rusqlite::ffi::SQLITE_FULL),
+                        Some(format!("verif injected fault at {}", point)),
+                    ));
+                }
+            }
+        }
+    }
+    Ok(())
+}
+
+/// an instrumented point where only a process abort can be injected (an `Error` plan is ignored)
+pub fn fault_abort_only(point: &str) {
+    let abort = {
+        let f = FAULT.lock().unwrap();
+        matches!(&f.plan, Some(p) if p.action == FaultAction::Abort)
+    };
+    if abort {
+        let _ = fault(point);
+    } else {
+        //still count the hit
+        let mut f = FAULT.lock().unwrap();
+        match f.counts.iter_mut().find(|e| e.0 == point) {
+            Some(e) => e.1 += 1,
+            None => f.counts.push((point.to_string(), 1)),
+        }
+    }
+}
